@@ -23,9 +23,10 @@ const (
 	txMutated          // token-level mutation of a valid text: validity unknown, only agreement is judged
 	txStray            // stray bytes inserted: validity unknown
 	txEmpty            // empty / blank / comment-only
+	txBytes            // arbitrary bytes
 )
 
-var txNames = [...]string{"valid", "broken", "duplicate-name", "token-mutated", "stray-bytes", "empty"}
+var txNames = [...]string{"valid", "broken", "duplicate-name", "token-mutated", "stray-bytes", "empty", "arbitrary-bytes"}
 
 var entryNames = [...]string{"BuildRuleFromString", "BuildRuleWithIncremental", "NewGenginePool", "UpdatePooledRules", "UpdatePooledRulesIncremental"}
 
@@ -65,7 +66,19 @@ func (g *G) richRule(id, sal, ver int) string {
 	return b.String()
 }
 
-func (g *G) genCompileOp(nNames int, ver *int) *compileOp {
+func (g *G) genCompileOp(nNames int, ver *int, valid *[]*compileOp) *compileOp {
+	if len(*valid) > 0 && g.Pct(15) {
+		h := (*valid)[g.Intn(len(*valid))]
+		return &compileOp{Class: txValid, Text: h.Text, Rules: h.Rules}
+	}
+	op := g.genCompileOp1(nNames, ver)
+	if op.Class == txValid {
+		*valid = append(*valid, op)
+	}
+	return op
+}
+
+func (g *G) genCompileOp1(nNames int, ver *int) *compileOp {
 	op := &compileOp{}
 	*ver++
 	k := g.Range(1, 3)
@@ -87,7 +100,16 @@ func (g *G) genCompileOp(nNames int, ver *int) *compileOp {
 		b.WriteString(g.richRule(id, sal, *ver))
 	}
 	op.Text = b.String()
-	switch c := g.Intn(10); {
+	switch c := g.Intn(11); {
+	case c == 10:
+		op.Class = txBytes
+		n := 1 + g.Intn(40)
+		bs := make([]byte, n)
+		alphabet := []byte("rule \"begin end{}()=+-*/<>!&|;,.@#$%\x00\x7f\xff\xc3\n\t0123456789abcXYZ")
+		for i := range bs {
+			bs[i] = alphabet[g.Intn(len(alphabet))]
+		}
+		op.Text = string(bs)
 	case c < 3:
 		op.Class = txValid
 	case c == 3:
@@ -173,8 +195,9 @@ func RunW3Compile(plan, sched *simrt.Source, trace bool) *RunOut {
 		init.Text = b.String()
 	}
 	var ops []*compileOp
+	valid := []*compileOp{init}
 	for i := 0; i < nOps; i++ {
-		ops = append(ops, g.genCompileOp(nNames, &ver))
+		ops = append(ops, g.genCompileOp(nNames, &ver, &valid))
 	}
 	o.Describe = func() []string {
 		out := []string{fmt.Sprintf("config: shuffleMaps=%v names 1..%d", cfg.ShuffleMaps, nNames), "--- initial text (all five objects) ---", init.Text}
